@@ -127,7 +127,7 @@ def atom_axioms(z, atoms, extra_pairs=True):
             ax += [x > -z.pi, x <= z.pi]
             # |phi| >= |sin phi| = |y|/rho
             rho = z3.Real("rho_%d" % i)
-            ax += [rho >= 0, rho * rho == xx * xx + y * y, z3.Implies(y >= 0, x * rho >= y), z3.Implies(y <= 0, x * rho <= y)]
+            ax += [rho >= 0, rho * rho == xx * xx + y * y, z3.Implies(y >= 0, x * rho >= y), z3.Implies(y < 0, x * rho <= y)]
             ax += [z3.Implies(y > 0, z3.And(x > 0, x < z.pi)), z3.Implies(y < 0, z3.And(x < 0, x > -z.pi)),
                    z3.Implies(z3.And(y == 0, xx > 0), x == 0), z3.Implies(z3.And(y == 0, xx < 0), x == z.pi),
                    z3.Implies(xx > 0, z3.And(2 * x < z.pi, 2 * x > -z.pi)),
@@ -137,6 +137,18 @@ def atom_axioms(z, atoms, extra_pairs=True):
             ax.append(x > 0)
         elif name.startswith("uf:") or name in ("log", "pow", "asin", "acos", "atan"):
             pass
+    # atan2(-y,-x) against atan2(y,x): they differ by pi (sign fixed by the half plane)
+    at2 = [(i, T.ATOM_LIST[i][2]) for i in seen if T.ATOM_LIST[i][0] == "fn" and T.ATOM_LIST[i][1] == "atan2"]
+    for a_i, (ya, xa) in at2:
+        for b_i, (yb, xb) in at2:
+            if a_i < b_i:
+                if T.rf_key(T.nf(T.Neg(ya))) == T.rf_key(T.nf(yb)) and T.rf_key(T.nf(T.Neg(xa))) == T.rf_key(T.nf(xb)):
+                    (yn, yd), (xn, xd) = T.nf(ya), T.nf(xa)
+                    y = z.poly(yn) if T.p_is_const(yd) else z.poly(yn) * z.poly(yd)
+                    xx = z.poly(xn) if T.p_is_const(xd) else z.poly(xn) * z.poly(xd)
+                    A, B = z.atom(a_i), z.atom(b_i)
+                    up = z3.Or(y > 0, z3.And(y == 0, xx < 0))
+                    ax += [z3.Implies(z3.And(up, z3.Or(y != 0, xx != 0)), B == A - z.pi), z3.Implies(z3.And(z3.Not(up), z3.Or(y != 0, xx != 0)), B == A + z.pi)]
     for key, d in trig.items():
         if "sin" in d and "cos" in d:
             s = z.atom(d["sin"][0])
